@@ -22,12 +22,16 @@ CoreKinds == {"defvar", "deffun", "assign", "delete", "mut_objproto", "mut_arrpr
 Redecl1Kinds == {"defvar", "deffun", "assign", "set", "throw", "ieval", "read", "newfn"} \cup RedeclKinds
 \* family I (isolation of the whole built-in object graph): the history works on one inventory target
 InvCoreKinds == {"inv_mut", "inv_del", "inv_throw"}
+\* families T / K / V (ContextModel: TextKinds, KeptKinds, CarryKinds): the history works on the global h
 AlphabetName == IF "ALPHABET" \in DOMAIN IOEnv THEN IOEnv.ALPHABET ELSE "full"
 Alphabet == CASE AlphabetName = "core" -> CoreKinds
               [] AlphabetName = "redecl" -> BaseKinds \cup RedeclKinds
               [] AlphabetName = "redecl1" -> Redecl1Kinds
               [] AlphabetName = "inv" -> InvCoreKinds
               [] AlphabetName = "invfull" -> InvKinds
+              [] AlphabetName = "text" -> TextKinds
+              [] AlphabetName = "kept" -> KeptKinds
+              [] AlphabetName = "carry" -> CarryKinds
               [] OTHER -> BaseKinds
 
 \* ---------------- the inventory of the built-in object graph (family I) ---------------------------
@@ -40,6 +44,10 @@ Alphabet == CASE AlphabetName = "core" -> CoreKinds
 \*   pmem  the same for <root>.prototype.<mem>
 \* The marker of every other via is a new property `zq`.  The specification decides which paths are targets.
 Vias == {"self", "proto", "gpo", "inst", "mem", "pmem"}
+\* (family T, below: paths from an object made from text; lit = 2)
+FreshVias == {"tself", "tproto", "tnest", "telem", "tmem"}
+ChainVias == {"tgpo", "tpgpo"}
+TextVias == FreshVias \cup ChainVias
 Inventory == IF "INV_FILE" \in DOMAIN IOEnv THEN ndJsonDeserialize(IOEnv.INV_FILE) ELSE <<>>
 InvSub == IF "INV_SUB" \in DOMAIN IOEnv THEN IOEnv.INV_SUB ELSE "all"
 IsMember(rec) == rec.via \in {"mem", "pmem"}
@@ -49,16 +57,105 @@ InvTargets == {j \in 1..Len(Inventory) :
 \* vacuity guard (machinery, not a verdict on the engine): the discovery found the object graph
 MustRoots == {"Object", "Array", "Math", "JSON", "Function", "Error", "String", "Number"}
 InvWellFormed ==
-  /\ \A j \in 1..Len(Inventory) : Inventory[j].via \in Vias /\ Inventory[j].ok \in {0, 1} /\ Inventory[j].lit \in {0, 1}
+  /\ \A j \in 1..Len(Inventory) : /\ Inventory[j].ok \in {0, 1} /\ Inventory[j].lit \in {0, 1, 2}
+                                   /\ Inventory[j].via \in (IF Inventory[j].lit = 2 THEN TextVias ELSE Vias)
   /\ \A r \in MustRoots : \E j \in InvTargets : Inventory[j].root = r /\ Inventory[j].via = "self" /\ Inventory[j].lit = 0
   /\ \A v \in Vias : \E j \in InvTargets : Inventory[j].via = v
   /\ \E j \in InvTargets : Inventory[j].lit = 1
   /\ Cardinality(InvTargets) >= 30
 IsInvAlphabet == AlphabetName \in {"inv", "invfull"}
-\* the parameters of a history besides its events: the inventory target it works on (0 = none) and whether the
+
+\* ---------------- family T: objects made at run time from text ------------------------------------
+\* The discovery also reports, for every way of making an object from text (root = the name of the form, lit = 2) and
+\* every path from the made object h, whether the path keeps a marker (same test as above, on one scratch context):
+\*   tself h            tproto h.prototype        tnest h.a        telem h[0]       tmem h.lastIndex (an existing member)
+\*   tgpo  Object.getPrototypeOf(h)              tpgpo Object.getPrototypeOf(h.prototype)
+\* The first five designate the made object or an object made with it: a new creation starts pristine (tx_make).  The
+\* last two designate an intrinsic of the context reached through the prototype chain of the made object (tx_makei):
+\* prototype-chain isolation - the chain of an object made in one context never leads into another context.
+RegexForms == {"ieval_regex", "new_regexp", "call_regexp", "literal_regex", "function_result_regex"}
+\* (an existing member as the marker is used for the regex forms only, whose objects keep no new property; on the other
+\*  objects h.lastIndex is just another new property)
+TextTargets == {j \in 1..Len(Inventory) : /\ Inventory[j].ok = 1 /\ Inventory[j].via \in TextVias
+                                          /\ Inventory[j].via = "tmem" => Inventory[j].root \in RegexForms}
+\* every way of creating code or objects from text must be in the space, each with a path on the made object and (except
+\* for the regex forms, whose objects keep no new property) a path into the intrinsics
+MustForms == {"new_function", "call_function", "ieval_function", "ieval_array", "ieval_object", "ieval_regex",
+              "new_regexp", "call_regexp", "json_object", "json_array", "function_result_object", "function_result_function",
+              "literal_function", "literal_object", "literal_array", "literal_regex"}
+TextWellFormed ==
+  /\ \A fm \in MustForms : /\ \E j \in TextTargets : Inventory[j].root = fm /\ Inventory[j].via \in FreshVias
+                           /\ fm \notin RegexForms => \E j \in TextTargets : Inventory[j].root = fm /\ Inventory[j].via \in ChainVias
+  /\ \A v \in TextVias : \E j \in TextTargets : Inventory[j].via = v
+  /\ \A j \in TextTargets : Inventory[j].lit = 2
+
+\* ---------------- family K: bindings kept alive by closures -----------------------------------------
+\* kind of binding x route by which the program that makes it reaches the engine x route of the later program that
+\* creates a binding of the same kind (top = the eval text itself, ieval = text given to indirect eval, newfn = body of
+\* a Function that is called)
+KeptBindingKinds == <<"catch", "catch_in_function", "function_own_name", "arguments", "local", "parameter",
+                      "bound_argument", "bound_this">>
+Routes == <<"top", "ieval", "newfn">>
+KeptForms == [n \in 1..(Len(KeptBindingKinds) * 9) |->
+                [kb |-> KeptBindingKinds[((n - 1) \div 9) + 1], mk |-> Routes[(((n - 1) % 9) \div 3) + 1],
+                 ot |-> Routes[((n - 1) % 3) + 1], cls |-> ""]]
+\* quick: every kind of binding with both programs at top level, and every pair of routes for the catch parameter
+KeptQuick == {n \in 1..Len(KeptForms) : (KeptForms[n].mk = "top" /\ KeptForms[n].ot = "top") \/ KeptForms[n].kb = "catch"}
+
+\* ---------------- family V: values made by one eval and used by later ones ------------------------------
+\* carrier x use; cls: "native" = the carrier is a native method value (a built-in method read from a value and kept)
+ArrayCallbackMethods == <<"forEach", "map", "filter", "reduce", "reduceRight", "some", "every", "find", "findIndex", "sort">>
+CarryForms ==
+  [n \in 1..Len(ArrayCallbackMethods) |-> [cr |-> "array", use |-> ArrayCallbackMethods[n], cls |-> "object"]] \o
+  << [cr |-> "function", use |-> "call_direct", cls |-> "script"],
+     [cr |-> "function", use |-> "dot_call", cls |-> "script"],
+     [cr |-> "function", use |-> "dot_apply", cls |-> "script"],
+     [cr |-> "closure", use |-> "call_direct", cls |-> "script"],
+     [cr |-> "arrow", use |-> "call_direct", cls |-> "script"],
+     [cr |-> "bound_function", use |-> "call_direct", cls |-> "script"],
+     [cr |-> "regex", use |-> "replace", cls |-> "object"],
+     [cr |-> "regex", use |-> "replaceAll", cls |-> "object"],
+     [cr |-> "accessor_literal", use |-> "get", cls |-> "object"],
+     [cr |-> "accessor_defined", use |-> "get", cls |-> "object"],
+     [cr |-> "accessor_defined", use |-> "set", cls |-> "object"],
+     [cr |-> "object_method", use |-> "call_method", cls |-> "object"],
+     [cr |-> "object_tostring", use |-> "concat", cls |-> "object"],
+     [cr |-> "native_array_forEach", use |-> "call_direct", cls |-> "native"],
+     [cr |-> "native_array_sort", use |-> "call_direct", cls |-> "native"],
+     [cr |-> "native_string_replace", use |-> "call_regex", cls |-> "native"],
+     [cr |-> "native_function_call", use |-> "call_null", cls |-> "native"],
+     [cr |-> "native_function_apply", use |-> "apply_null", cls |-> "native"] >>
+\* quick: every carrier and every use, but only four of the array's callback methods (the others differ in nothing the
+\* model distinguishes; GridLaw below keeps the sub-grid honest)
+CarryQuick == {n \in 1..Len(CarryForms) : CarryForms[n].cr # "array" \/ CarryForms[n].use \in {"forEach", "map", "reduce", "sort"}}
+\* the quick sub-grids contain every class of every dimension of the full grids
+GridLaw ==
+  /\ {KeptForms[n].kb : n \in KeptQuick} = {KeptForms[n].kb : n \in 1..Len(KeptForms)}
+  /\ {KeptForms[n].mk : n \in KeptQuick} = {KeptForms[n].mk : n \in 1..Len(KeptForms)}
+  /\ {KeptForms[n].ot : n \in KeptQuick} = {KeptForms[n].ot : n \in 1..Len(KeptForms)}
+  /\ {CarryForms[n].cr : n \in CarryQuick} = {CarryForms[n].cr : n \in 1..Len(CarryForms)}
+  /\ {CarryForms[n].use : n \in CarryQuick} \cup {ArrayCallbackMethods[n] : n \in 1..Len(ArrayCallbackMethods)}
+       = {CarryForms[n].use : n \in 1..Len(CarryForms)}
+  /\ {CarryForms[n].cls : n \in CarryQuick} = {CarryForms[n].cls : n \in 1..Len(CarryForms)}
+ASSUME GridLaw
+
+\* the parameters of a history besides its events: the target / form it works on (0 = none) and whether the
 \* contexts other than the first actor's are created only after the first event has run
-FamSpace == IF IsInvAlphabet THEN {[tj |-> j, late |-> b] : j \in InvTargets, b \in {0, 1}}
-            ELSE {[tj |-> 0, late |-> 0]}
+FamSpace == CASE IsInvAlphabet -> {[tj |-> j, late |-> b] : j \in InvTargets, b \in {0, 1}}
+              [] AlphabetName = "text" -> {[tj |-> j, late |-> b] : j \in TextTargets, b \in {0, 1}}
+              [] AlphabetName = "kept" -> {[tj |-> j, late |-> 0] : j \in IF InvSub = "all" THEN 1..Len(KeptForms) ELSE KeptQuick}
+              [] AlphabetName = "carry" -> {[tj |-> j, late |-> 0] : j \in IF InvSub = "all" THEN 1..Len(CarryForms) ELSE CarryQuick}
+              [] OTHER -> {[tj |-> 0, late |-> 0]}
+\* which kinds a history may use besides the alphabet: a path on the made object / into the intrinsics (family T)
+FamAllows(kd, fm) == /\ kd = "tx_make" => Inventory[fm.tj].via \in FreshVias
+                     /\ kd = "tx_makei" => Inventory[fm.tj].via \in ChainVias
+\* the class of the target / form, echoed in the trace (Trace: which creation kind applies, which deviation may apply)
+FamClass(fm) == CASE AlphabetName = "text" -> IF Inventory[fm.tj].via \in FreshVias THEN "fresh" ELSE "chain"
+                  [] AlphabetName = "carry" -> CarryForms[fm.tj].cls
+                  [] OTHER -> ""
+\* virtual time that passes between two evals of a history (ticks): more than any context's time limit
+Gap == 2000
+ModelNames == {"g", "f", "h", "r"}      \* r: the flag of the cv_catch program (a global of its own, not projected)
 
 VARIABLES hist,     \* Enum: the history so far, a sequence of [c, k]
           fam,      \* Enum: the parameters of the history [tj, late]
@@ -66,11 +163,17 @@ VARIABLES hist,     \* Enum: the history so far, a sequence of [c, k]
           tl,       \* Trace: next event
           tok,      \* Trace: no mismatch so far
           twhy,     \* Trace: first mismatch [at, clause, c, exp]
-          tdevs     \* Trace: named deviations (known findings) that explained an observation
-vars == <<cmvars, hist, fam, tid, tl, tok, twhy, tdevs>>
+          tdevs,    \* Trace: named deviations (known findings) that explained an observation
+          tdat,     \* Trace: index of the first event a deviation explained
+          tpois     \* Trace: see Dev_StaleNativeInterpreter (c)
+vars == <<cmvars, hist, fam, tid, tl, tok, twhy, tdevs, tdat, tpois>>
 NoWhy == [at |-> 0, clause |-> "", c |-> 0, exp |-> <<>>]
 \* the limits of the contexts are part of the specification: the driver reads them from this line
-ASSUME PrintT(ToJson([limits |-> [c \in 1..3 |-> LimitsOf(c)]]))
+ASSUME PrintT(ToJson([limits |-> [c \in 1..3 |-> LimitsOf(c)], gap |-> Gap, names |-> ModelNames,
+                      work |-> [lo |-> POLL + 50, hi |-> WORKMAX - 50],
+                      forms |-> CASE AlphabetName = "kept" -> KeptForms [] AlphabetName = "carry" -> CarryForms [] OTHER -> <<>>]))
+ASSUME AlphabetName = "text" => PrintT(ToJson([inv_ok |-> TextWellFormed, inv_n |-> Cardinality(TextTargets),
+                                               inv_len |-> Len(Inventory)]))
 ASSUME IsInvAlphabet => PrintT(ToJson([inv_ok |-> InvWellFormed, inv_n |-> Cardinality(InvTargets),
                                        inv_len |-> Len(Inventory)]))
 
@@ -78,28 +181,32 @@ ASSUME IsInvAlphabet => PrintT(ToJson([inv_ok |-> InvWellFormed, inv_n |-> Cardi
 \* the value written by event number n is n: every write of a history is distinguishable
 EnumInit == /\ ctx = [c \in Ctxs |-> NewCtx(LimitsOf(c))] /\ twin = <<>> /\ pc = Idle
             /\ evn = 0 /\ actor = 0 /\ last = "none"
-            /\ hist = <<>> /\ fam \in FamSpace /\ tid = 0 /\ tl = 0 /\ tok = TRUE /\ twhy = NoWhy /\ tdevs = {}
+            /\ hist = <<>> /\ fam \in FamSpace /\ tid = 0 /\ tl = 0 /\ tok = TRUE /\ twhy = NoWhy /\ tdevs = {} /\ tdat = 0 /\ tpois = {}
 EnumExtend == /\ evn < MAXN
               /\ \E c \in Ctxs : \E kd \in Alphabet :
-                   /\ Guard(kd, ctx[c])
+                   /\ Guard(kd, ctx[c]) /\ (AlphabetName = "text" => FamAllows(kd, fam))
                    /\ ctx' = [ctx EXCEPT ![c] = RunEvent(ctx[c], kd, evn + 1).st]
                    /\ evn' = evn + 1 /\ actor' = c
                    /\ hist' = Append(hist, [c |-> c, k |-> kd])
-                   /\ UNCHANGED <<twin, pc, last, fam, tid, tl, tok, twhy, tdevs>>
+                   /\ UNCHANGED <<twin, pc, last, fam, tid, tl, tok, twhy, tdevs, tdat, tpois>>
 \* a complete history is printed exactly once and not extended.  (No CONSTRAINT is used for this: TLC's
 \* simulator retries for ever when every successor of a state violates a constraint.)
 \* NOVEL = 1 (quick tier): the histories over the base catalogue alone are enumerated by the "full" run already, the
 \* re-declaration runs print only the histories that contain a re-declaration
-Novel == ("NOVEL" \notin DOMAIN IOEnv) \/ IOEnv.NOVEL # "1" \/ \E n \in 1..Len(hist) : hist[n].k \in RedeclKinds
+\* (family K: a history without kb_make never has a closure to disturb - the probe reads 0 throughout)
+Novel == ("NOVEL" \notin DOMAIN IOEnv) \/ IOEnv.NOVEL # "1"
+         \/ \E n \in 1..Len(hist) : hist[n].k \in RedeclKinds \cup {"kb_make"}
 EnumFinish == /\ evn = MAXN /\ tl = 0
-              /\ Novel => PrintT(ToJson([h |-> hist, tj |-> fam.tj, late |-> fam.late]))
+              /\ Novel => PrintT(ToJson([h |-> hist, tj |-> fam.tj, late |-> fam.late, cls |-> FamClass(fam)]))
               /\ tl' = 1
-              /\ UNCHANGED <<cmvars, hist, fam, tid, tok, twhy, tdevs>>
+              /\ UNCHANGED <<cmvars, hist, fam, tid, tok, twhy, tdevs, tdat, tpois>>
 EnumNext == EnumExtend \/ EnumFinish
 
 \* ---------------- Trace -------------------------------------------------------------------------
-\* one line per history: [tid, nc, tj, ev: <<[c, k, x, o, r, pr: <<projection of ctx 1, ...>>]>>]
-\* (tj >= 1: the history worked on an inventory target; the model does not care which one)
+\* one line per history: [tid, nc, tj, cls, ev: <<[c, k, x, o, r, w, pr: <<projection of ctx 1, ...>>]>>]
+\* (tj >= 1: the history worked on an inventory target / a form; the model does not care which one.  cls: the class of
+\*  the target or form as the specification printed it: "fresh" / "chain" (family T), CarryForms[..].cls (family V), else "".
+\*  w: interpreter steps the event took, judged for cv_work only)
 Traces == ndJsonDeserialize(IOEnv.OBS_FILE)
 PtrIx == 7 + NT
 ExtraIx == 8 + NT
@@ -108,15 +215,34 @@ ExtraIx == 8 + NT
 \* Dev_ReentrantPointer: Context.eval ends with `self._current_vm = None` instead of restoring the pointer of the
 \*   evaluation that is still running, so after a re-entrant eval the outer evaluation reports "pointer not set"
 \*   (result 0 of the reenter snippet).  State effects are as specified.
-Deviation(ev, pred) ==
-  IF ev.k = "reenter" /\ ev.o = "value" /\ pred.r = 1 /\ ev.r = 0 THEN "Dev_ReentrantPointer" ELSE ""
+\* Dev_StaleNativeInterpreter: a native method value (`[1,2,3].forEach`, `'abc'.replace`, `f.call`, read in one eval and
+\*   kept in a global) is a closure over the interpreter of the eval that read it and runs script callbacks on that dead
+\*   interpreter.  As-is rule, for histories whose carrier is such a value (cls = "native") and only there:
+\*   (a) a throw from the callback does not see the try/catch of the eval that is running: cv_catch / cv_catchfn end in
+\*       JSError; (b) the callback's instructions are polled against the dead eval's deadline, which has passed (Gap): the
+\*       one poll of cv_work raises TimeLimitError; in both cases the state effects are as specified (the dead interpreter
+\*       shares the context's globals); (c) after cv_mem the dead interpreter keeps the call stack the memory-limit error
+\*       left, so every later use of the same value (until it is made again) ends in MemoryLimitError before the callback
+\*       runs: no effect at all.
+Poisoned(ev, cls, pois) == cls = "native" /\ ev.k \in CarryUseKinds /\ ev.c \in pois /\ ev.o = "memlimit"
+Deviation(ev, pred, cls, pois) ==
+  IF ev.k = "reenter" /\ ev.o = "value" /\ pred.r = 1 /\ ev.r = 0 THEN "Dev_ReentrantPointer"
+  ELSE IF Poisoned(ev, cls, pois) THEN "Dev_StaleNativeInterpreter"
+  ELSE IF cls = "native" /\ ev.k \in {"cv_catch", "cv_catchfn"} /\ ev.o = "jserror" THEN "Dev_StaleNativeInterpreter"
+  ELSE IF cls = "native" /\ ev.k = "cv_work" /\ ev.o = "timelimit" /\ pred.os = {"value"} THEN "Dev_StaleNativeInterpreter"
+  ELSE ""
+\* the prediction under the as-is rule of the deviation that applies (the specified one when none does)
+AsIs(ev, pred, cls, pois, cs) ==
+  IF Poisoned(ev, cls, pois) THEN [st |-> cs, os |-> {"memlimit"}, r |-> DontCare]
+  ELSE IF Deviation(ev, pred, cls, pois) = "Dev_StaleNativeInterpreter" THEN [st |-> pred.st, os |-> {ev.o}, r |-> DontCare]
+  ELSE pred
 
-\* first failing clause of one event, or "" : pre = model state before, pred = RunEvent's prediction
-Clause(ev, pre, pred, nc) ==
+\* first failing clause of one event, or "" : pre = model state before, pred = RunEvent's prediction (or the as-is one)
+Clause(ev, pre, pred, nc, dev) ==
   LET post(c) == IF c = ev.c THEN pred.st ELSE pre[c]
       bad(c)  == ev.pr[c] # Observe(post(c))
   IN IF ev.o \notin pred.os THEN [clause |-> "outcome", c |-> ev.c]
-     ELSE IF pred.r # DontCare /\ ev.r # pred.r /\ Deviation(ev, pred) = "" THEN [clause |-> "result", c |-> ev.c]
+     ELSE IF pred.r # DontCare /\ ev.r # pred.r /\ dev = "" THEN [clause |-> "result", c |-> ev.c]
      ELSE IF \E c \in 1..nc : ev.pr[c][PtrIx] # 1
           THEN [clause |-> "pointer", c |-> CHOOSE c \in 1..nc : ev.pr[c][PtrIx] # 1]
      ELSE IF \E c \in 1..nc : ev.pr[c][ExtraIx] # 0
@@ -130,21 +256,33 @@ TraceInit == /\ tid \in 1..Len(Traces)
              /\ ctx = [c \in 1..Traces[tid].nc |-> NewCtx(LimitsOf(c))]
              /\ twin = <<>> /\ pc = Idle /\ evn = 0 /\ actor = 0 /\ last = "none" /\ hist = <<>>
              /\ fam = [tj |-> 0, late |-> 0]
-             /\ tl = 1 /\ tok = TRUE /\ twhy = NoWhy /\ tdevs = {}
+             /\ tl = 1 /\ tok = TRUE /\ twhy = NoWhy /\ tdevs = {} /\ tdat = 0 /\ tpois = {}
 TraceNext ==
   /\ tl <= Len(Traces[tid].ev)
   /\ LET tr == Traces[tid]
          ev == tr.ev[tl]
          enabled == /\ ev.k \in Kinds /\ ev.c \in 1..tr.nc /\ Guard(ev.k, ctx[ev.c])
-                    /\ (ev.k \in InvKinds => tr.tj >= 1)
+                    /\ (ev.k \in InvKinds \cup TextKinds \cup KeptKinds \cup CarryKinds => tr.tj >= 1)
+                    /\ (ev.k = "tx_make" => tr.cls = "fresh") /\ (ev.k = "tx_makei" => tr.cls = "chain")
+                    \* cv_work that came back with a value: the calibrated work must lie inside the window the model assumes
+                    /\ (ev.k = "cv_work" /\ ev.o = "value" => ev.w > POLL /\ ev.w < WORKMAX)
      IN IF ~enabled
         THEN \* the model cannot take this event at all: the generator left the specification (machinery)
              /\ tok' = FALSE
              /\ twhy' = IF tok THEN [at |-> tl, clause |-> "unsupported", c |-> ev.c, exp |-> <<>>] ELSE twhy
              /\ ctx' = [c \in 1..tr.nc |-> Adopt(ctx[c], ev.pr[c])]
-             /\ UNCHANGED <<evn, actor, last, tdevs>>
-        ELSE LET pred == RunEvent(ctx[ev.c], ev.k, ev.x)
-                 cl == Clause(ev, ctx, pred, tr.nc)
+             /\ UNCHANGED <<evn, actor, last, tdevs, tdat, tpois>>
+        ELSE LET spec == RunEvent(ctx[ev.c], ev.k, ev.x)
+                 clS == Clause(ev, ctx, spec, tr.nc, "")
+                 \* a deviation is consulted only when the observation is not what the specification demands, and it
+                 \* explains the event only if the WHOLE observation is what its as-is rule predicts
+                 dv0 == Deviation(ev, spec, tr.cls, tpois)
+                 predA == AsIs(ev, spec, tr.cls, tpois, ctx[ev.c])
+                 clA == Clause(ev, ctx, predA, tr.nc, dv0)
+                 useDev == clS.clause # "" /\ dv0 # "" /\ clA.clause = ""
+                 dv == IF useDev THEN dv0 ELSE ""
+                 pred == IF useDev THEN predA ELSE spec
+                 cl == IF useDev THEN clA ELSE clS
                  good == cl.clause = ""
              IN /\ ctx' = IF good THEN [ctx EXCEPT ![ev.c] = pred.st]
                           ELSE [c \in 1..tr.nc |-> Adopt(ctx[c], ev.pr[c])]       \* resync, keep going
@@ -153,17 +291,21 @@ TraceNext ==
                            THEN [at |-> tl, clause |-> cl.clause, c |-> cl.c,
                                  exp |-> Observe(IF cl.c = ev.c THEN pred.st ELSE ctx[cl.c])]
                            ELSE twhy
-                /\ tdevs' = IF Deviation(ev, pred) # "" THEN tdevs \cup {Deviation(ev, pred)} ELSE tdevs
+                /\ tdevs' = IF dv # "" THEN tdevs \cup {dv} ELSE tdevs
+                /\ tdat' = IF dv # "" /\ tdat = 0 THEN tl ELSE tdat
+                \* contexts whose carried value was last used by an eval that died of the memory limit inside the callback
+                /\ tpois' = IF ev.k = "cv_make" THEN tpois \ {ev.c}
+                            ELSE IF ev.k = "cv_mem" /\ ev.o = "memlimit" THEN tpois \cup {ev.c} ELSE tpois
                 /\ evn' = evn + 1 /\ actor' = ev.c /\ last' = ev.o
   /\ tl' = tl + 1
   /\ UNCHANGED <<twin, pc, hist, fam, tid>>
 \* CONSTRAINT: a fully consumed trace prints its verdict
 TraceEmit == tl <= Len(Traces[tid].ev)
              \/ PrintT(ToJson([tid |-> Traces[tid].tid, ok |-> tok, n |-> tl - 1, why |-> twhy,
-                                devs |-> IF tdevs = {} THEN "" ELSE CHOOSE d \in tdevs : TRUE]))
+                                devs |-> IF tdevs = {} THEN "" ELSE CHOOSE d \in tdevs : TRUE, devat |-> tdat]))
 \* invariants evaluated on every state of every observed execution
 TraceTypeOK ==
   \A c \in DOMAIN ctx : /\ \A nm \in Names : ctx[c].globals[nm].k \in {"absent", "undef", "num", "fn"}
-                        /\ \A j \in 1..NT : ctx[c].touched[j] \in Nat /\ ctx[c].inv \in Nat
+                        /\ \A j \in 1..NT : ctx[c].touched[j] \in Nat /\ ctx[c].inv \in Nat /\ ctx[c].made \in {0, 1}
                         /\ ~ctx[c].ptr /\ ctx[c].depth = 0 /\ ctx[c].limits = LimitsOf(c)
 =============================================================================
